@@ -1,0 +1,112 @@
+//go:build verif
+
+// Contracts for package nycttrips, read by the /verif VC generator (govc). Comments only.
+// Ghost vocabulary: hasExt(m, "E_X") / getExt(m, "E_X") denote proto.HasExtension / proto.GetExtension on message m.
+
+package nycttrips
+
+//@ pure func nyctStu(s *gtfsrt.TripUpdate_StopTimeUpdate) *gtfsrt.NyctStopTimeUpdate = getExtRef(s, "E_NyctStopTimeUpdate")
+//@ pure func nyctDesc(d *gtfsrt.TripDescriptor) *gtfsrt.NyctTripDescriptor = getExtRef(d, "E_NyctTripDescriptor")
+
+// C16: "each stop time's track is the actual track when present and otherwise the scheduled one"
+//@ func (extension).GetTrack
+//@   props C16 C05 C06
+//@   ensures [plain-update] !hasExt(stopTimeUpdate, "E_NyctStopTimeUpdate") ==> result == nil
+//@   ensures [actual-first] hasExt(stopTimeUpdate, "E_NyctStopTimeUpdate") && nyctStu(stopTimeUpdate).ActualTrack != nil ==> result == nyctStu(stopTimeUpdate).ActualTrack
+//@   ensures [else-scheduled] hasExt(stopTimeUpdate, "E_NyctStopTimeUpdate") && nyctStu(stopTimeUpdate).ActualTrack == nil ==> result == nyctStu(stopTimeUpdate).ScheduledTrack
+//@   canary [must-fail] hasExt(stopTimeUpdate, "E_NyctStopTimeUpdate") ==> result == nyctStu(stopTimeUpdate).ScheduledTrack
+//@   assigns nothing
+
+// C16: "a trip is dropped exactly when it is unassigned and the departure (else arrival) time of its first stop is
+// missing or earlier than the feed timestamp" (a missing time is represented as 0 by the generated getters)
+//@ pure func evTime(e *gtfsrt.TripUpdate_StopTimeEvent) int64 = (e == nil || e.Time == nil) ? 0 : *e.Time
+//@ pure func firstTime(s *gtfsrt.TripUpdate_StopTimeUpdate) int64 = (s == nil) ? 0 : (evTime(s.Departure) != 0 ? evTime(s.Departure) : evTime(s.Arrival))
+
+//@ func isStaleUnassignedTrip
+//@   props C16 C05 C06
+//@   ensures [assigned-never-stale] isAssigned ==> !result
+//@   ensures [no-stops] !isAssigned && len(stopTimes) == 0 ==> result
+//@   ensures [first-stop-time] !isAssigned && len(stopTimes) > 0 && feedCreatedAt < 9223372036854775808 ==> result == (firstTime(stopTimes[0]) == 0 || firstTime(stopTimes[0]) < feedCreatedAt)
+//@   canary [must-fail] !isAssigned && len(stopTimes) > 0 ==> result == (firstTime(stopTimes[0]) <= feedCreatedAt)
+//@   assigns nothing
+
+// ----------------------------------------------------------------------------------------------------------------
+// C16: the M train platform swap. swapNS is the documented rewrite: N<->S at M11-M14, M16, M18, nothing else.
+//@ pure func buggyStation(s string) bool = s == "M11" || s == "M12" || s == "M13" || s == "M14" || s == "M16" || s == "M18"
+//@ pure func swapNS(s string) string = (len(s) == 4 && buggyStation(s[0:3]) && s[3:4] == "N") ? s[0:3] + "S" : ((len(s) == 4 && buggyStation(s[0:3]) && s[3:4] == "S") ? s[0:3] + "N" : s)
+//@ lemma swapNS_is_its_own_inverse C16 : forall s string :: swapNS(swapNS(s)) == s
+//@ lemma swapNS_only_platforms C16 : forall s string :: swapNS(s) != s ==> len(s) == 4 && buggyStation(s[0:3]) && (s[3:4] == "N" || s[3:4] == "S")
+//@ canarylemma swapNS_identity_must_fail C16 : forall s string :: swapNS(s) == s
+
+//@ pure func routeOf(t *gtfsrt.TripUpdate) string = (t == nil || t.Trip == nil || t.Trip.RouteId == nil) ? "" : *t.Trip.RouteId
+//@ pure func sameOrSwapped(now *string, before *string) bool = (before == nil ==> now == nil) && (before != nil ==> now != nil && *now == swapNS(*before))
+
+// repeated message fields hold distinct message objects (what proto.Unmarshal produces)
+//@ pure func distinctUpdates(t *gtfsrt.TripUpdate) bool = t == nil || (forall a int, b int :: 0 <= a && a < b && b < len(t.StopTimeUpdate) ==> t.StopTimeUpdate[a] == nil || t.StopTimeUpdate[a] != t.StopTimeUpdate[b])
+
+//@ func fixMTrainPlatformsInBushwick
+//@   props C16 C05 C06
+//@   requires distinctUpdates(trip)
+//@   ensures [other-routes-untouched] old(routeOf(trip)) != "M" && trip != nil ==> (forall k int :: 0 <= k && k < len(trip.StopTimeUpdate) ==> trip.StopTimeUpdate[k] == nil || *trip.StopTimeUpdate[k] == old(*trip.StopTimeUpdate[k]))
+//@   ensures [swap-on-route-M] old(routeOf(trip)) == "M" ==> (forall k int :: 0 <= k && k < len(trip.StopTimeUpdate) ==> trip.StopTimeUpdate[k] == nil || swappedStop(trip.StopTimeUpdate[k]))
+//@   ensures [list-untouched] trip != nil ==> trip.StopTimeUpdate == old(trip.StopTimeUpdate) && trip.Trip == old(trip.Trip) && trip.Vehicle == old(trip.Vehicle)
+//@   loop 1 invariant forall k int :: 0 <= k && k < $i ==> trip.StopTimeUpdate[k] == nil || swappedStop(trip.StopTimeUpdate[k])
+//@   loop 1 invariant forall k int :: $i <= k && k < len(trip.StopTimeUpdate) ==> trip.StopTimeUpdate[k] == nil || *trip.StopTimeUpdate[k] == old(*trip.StopTimeUpdate[k])
+//@   loop 1 invariant trip != nil && trip.StopTimeUpdate == old(trip.StopTimeUpdate) && trip.Trip == old(trip.Trip) && trip.Vehicle == old(trip.Vehicle) && buggyStationIDs != nil
+//@   loop 1 invariant forall s string :: buggyStationIDs[s] <==> buggyStation(s)
+
+// an update after the fix: only StopId may differ, and it is the swap of what it was
+//@ pure func swappedStop(u *gtfsrt.TripUpdate_StopTimeUpdate) bool = sameOrSwapped(u.StopId, old(u.StopId)) && u.StopSequence == old(u.StopSequence) && u.Arrival == old(u.Arrival) && u.Departure == old(u.Departure) && u.ScheduleRelationship == old(u.ScheduleRelationship)
+
+// ----------------------------------------------------------------------------------------------------------------
+// C16: descriptor rewrite. pad2 is %02d for 0 <= x; originSeconds is "hundredths of a minute after midnight,
+// truncated to whole seconds".
+//@ pure func pad2(x int) string = (0 <= x && x < 10) ? "0" + itoa(x) : itoa(x)
+//@ pure func originSeconds(id string) int = (toInt(id[0:6]) * 6) / 10
+//@ pure func hmsText(sec int) string = pad2(sec / 3600) + ":" + pad2((sec / 60) % 60) + ":" + pad2(sec % 60)
+//@ lemma origin_time_arithmetic C16 : forall h int :: 0 <= h && h <= 599999 ==> ((h * 6) / 10) / 3600 <= 99 && ((((h * 6) / 10) / 60) % 60) <= 59 && ((h * 6) / 10) % 60 <= 59 && ((((h * 6) / 10) / 3600) * 60 + ((((h * 6) / 10) / 60) % 60)) * 60 + ((h * 6) / 10) % 60 == (h * 6) / 10 && 10 * ((h * 6) / 10) <= 6 * h && 6 * h < 10 * ((h * 6) / 10) + 10
+//@ canarylemma origin_time_rounds_up_must_fail C16 : forall h int :: 0 <= h && h <= 599999 ==> 10 * ((h * 6) / 10) == 6 * h
+
+//@ pure func tripDescOf(e ?) *gtfsrt.TripDescriptor = e.Trip
+
+//@ func setVehicleDescriptor
+//@   props C16 C05 C06
+//@   inline
+
+//@ func (extension).updateTripOrVehicle
+//@   props C16 C05 C06
+//@   requires entity != nil
+//@   inline
+
+//@ func (extension).UpdateVehicle
+//@   props C16 C05 C06
+//@   requires vehicle != nil
+//@   ensures [transparent-without-extension] !hasExt(old(vehicle.Trip), "E_NyctTripDescriptor") ==> *vehicle == old(*vehicle) && (vehicle.Trip != nil ==> *vehicle.Trip == old(*vehicle.Trip))
+//@   ensures [direction] hasExt(old(vehicle.Trip), "E_NyctTripDescriptor") ==> vehicle.Trip.DirectionId != nil && *vehicle.Trip.DirectionId == (dirIsNorth(nyctDesc(vehicle.Trip)) ? 0 : 1)
+//@   ensures [train-id-is-vehicle-id] hasExt(old(vehicle.Trip), "E_NyctTripDescriptor") && isAssigned(nyctDesc(vehicle.Trip)) ==> vehicle.Vehicle != nil && vehicle.Vehicle.Id != nil && *vehicle.Vehicle.Id == trainID(nyctDesc(vehicle.Trip))
+//@   ensures [unassigned-keeps-descriptor] hasExt(old(vehicle.Trip), "E_NyctTripDescriptor") && !isAssigned(nyctDesc(vehicle.Trip)) ==> vehicle.Vehicle == old(vehicle.Vehicle)
+
+//@ pure func dirIsNorth(d *gtfsrt.NyctTripDescriptor) bool = d == nil || d.Direction == nil || *d.Direction == 1
+//@ pure func isAssigned(d *gtfsrt.NyctTripDescriptor) bool = d != nil && d.IsAssigned != nil && *d.IsAssigned
+//@ pure func trainID(d *gtfsrt.NyctTripDescriptor) string = (d == nil || d.TrainId == nil) ? "" : *d.TrainId
+
+//@ func (extension).UpdateTrip
+//@   props C16 C05 C06
+//@   requires trip != nil && distinctUpdates(trip)
+//@   ensures [transparent-without-extension] !hasExt(old(trip.Trip), "E_NyctTripDescriptor") ==> !result.ShouldSkip && (trip.Trip != nil ==> *trip.Trip == old(*trip.Trip)) && trip.Vehicle == old(trip.Vehicle)
+//@   ensures [direction] hasExt(old(trip.Trip), "E_NyctTripDescriptor") ==> trip.Trip.DirectionId != nil && *trip.Trip.DirectionId == (dirIsNorth(nyctDesc(trip.Trip)) ? 0 : 1)
+//@   ensures [train-id-is-vehicle-id] hasExt(old(trip.Trip), "E_NyctTripDescriptor") && isAssigned(nyctDesc(trip.Trip)) ==> trip.Vehicle != nil && trip.Vehicle.Id != nil && *trip.Vehicle.Id == trainID(nyctDesc(trip.Trip))
+//@   ensures [start-time-from-trip-id] hasExt(old(trip.Trip), "E_NyctTripDescriptor") && nyctFormat(strOf(old(trip.Trip.TripId))) ==> trip.Trip.StartTime != nil && *trip.Trip.StartTime == hmsText(originSeconds(strOf(old(trip.Trip.TripId))))
+//@   ensures [stale-filter] hasExt(old(trip.Trip), "E_NyctTripDescriptor") && feedCreatedAt < 9223372036854775808 ==> result.ShouldSkip == (e.opts.FilterStaleUnassignedTrips && !isAssigned(nyctDesc(trip.Trip)) && (len(trip.StopTimeUpdate) == 0 || firstTime(trip.StopTimeUpdate[0]) == 0 || firstTime(trip.StopTimeUpdate[0]) < feedCreatedAt))
+//@   ensures [list-untouched] trip.StopTimeUpdate == old(trip.StopTimeUpdate) && trip.Trip == old(trip.Trip)
+//@   ensures [platform-fix] !e.opts.PreserveMTrainPlatformsInBushwick && old(routeOf(trip)) == "M" ==> (forall k int :: 0 <= k && k < len(trip.StopTimeUpdate) ==> trip.StopTimeUpdate[k] == nil || swappedStop(trip.StopTimeUpdate[k]))
+//@   ensures [no-platform-fix] (e.opts.PreserveMTrainPlatformsInBushwick || old(routeOf(trip)) != "M") ==> (forall k int :: 0 <= k && k < len(trip.StopTimeUpdate) ==> trip.StopTimeUpdate[k] == nil || *trip.StopTimeUpdate[k] == old(*trip.StopTimeUpdate[k]))
+
+//@ pure func strOf(p *string) string = p == nil ? "" : *p
+// the trip id format the regular expression accepts, as far as the start time derivation needs it
+//@ pure func nyctFormat(s string) bool = tripIDMatches(s)
+
+//@ func Extension
+//@   props C05 C06
+//@   ensures result != nil
+//@   assigns nothing
